@@ -282,7 +282,7 @@ class Interp:
                         if cur[1] == "end":
                             raise Unknown("increment of the end iterator")
                         if not str(cur[1]).startswith("__"):
-                            self.store(lv, ("iter", "next"))
+                            self.store(lv, ("iter", "next" if cur[1] != "next" else "skipped"))
                     else:
                         raise Unknown("increment of %r" % (cur,))
                 elif k == "return":
